@@ -1,0 +1,15 @@
+//go:build verif
+
+// Verification contracts (property C45, addition; comment-only, read by /verif/govc). No executable code.
+// The text of an element is the concatenation of ALL its character-data tokens (a parser may deliver one text run in
+// several tokens, and comments or CDATA sections split it): in an iteration of the token loop that neither opens nor
+// closes an element the value of the innermost open element only grows - what was collected so far stays a prefix.
+
+package idoc
+
+//@ func ExplodeXML
+//@   ghost gTopLen int = 0
+//@   ghost gTopVal string = ""
+//@   at Token#1 before set gTopLen = len(segmentStack)
+//@   at Token#1 before set gTopVal = ite(len(segmentStack) > 0, segmentStack[len(segmentStack)-1].Value, "")
+//@   at loopstep#1 assert [C45.element_text_only_accumulates] len(segmentStack) == gTopLen && gTopLen > 0 && !gEnd ==> hasPrefix(segmentStack[gTopLen-1].Value, gTopVal)
